@@ -83,12 +83,12 @@ fn scenario(seed: u64, rep: &Report, dedicated: bool) -> Result<(), String> {
             let names = ["s1", "s2", "s3"];
             let mut pn = 0;
             for _ in 0..rng.range(15, 50) {
-                if dedicated && recs.iter().any(|r: &ExecRec| !r.ok) {
+                if dedicated && (recs.iter().any(|r: &ExecRec| !r.ok) || !problems.is_empty()) {
                     break;
                 }
                 let shared = rng.chance(2, 3);
                 let name = if shared { names[rng.below(3) as usize].to_string() } else { format!("own_{}_{}", cid, rng.below(3)) };
-                match if dedicated { *rng.pick(&[9u64, 9, 4]) } else { rng.below(10) } {
+                match if dedicated { *rng.pick(&[9u64, 9, 4, 10]) } else { rng.below(12) } {
                     0..=2 => {
                         // (re)prepare a name; re-Parse of an existing name without Close is an error
                         // on a direct connection, so close it first in the same batch
@@ -166,6 +166,32 @@ fn scenario(seed: u64, rep: &Report, dedicated: bool) -> Result<(), String> {
                                 problems.push(format!("Close {} answered {}", name, summarize(&r)));
                             }
                         }
+                    }
+                    10 | 11 if model.len() >= 2 && (cache_size > 1 || dedicated) => {
+                        // two different known statements used in ONE batch: Bind a, Execute, Bind b, Execute, Sync
+                        let keys: Vec<String> = model.keys().cloned().collect();
+                        let na = keys[rng.below(keys.len() as u64) as usize].clone();
+                        let mut nb = keys[rng.below(keys.len() as u64) as usize].clone();
+                        if nb == na {
+                            nb = keys[(keys.iter().position(|k| *k == na).unwrap() + 1) % keys.len()].clone();
+                        }
+                        let (ta, tb) = (model[&na].clone(), model[&nb].clone());
+                        pn += 2;
+                        let (pa, pb) = (format!("{}_p{}", cid, pn - 1), format!("{}_p{}", cid, pn));
+                        let par = |t: &Text| -> Vec<Option<Vec<u8>>> { t.types.iter().map(|_| Some(b"7".to_vec())).collect() };
+                        let mut b = proto::bind(&pa, &na, &[], &par(&ta), &[]);
+                        b.extend(proto::execute(&pa, 0));
+                        b.extend(proto::bind(&pb, &nb, &[], &par(&tb), &[]));
+                        b.extend(proto::execute(&pb, 0));
+                        b.extend(proto::sync());
+                        c.send(&b).map_err(|e| e.to_string())?;
+                        let r = c.read_until_ready(10_000).map_err(|(m, e)| format!("{} two-bind batch: {:?} {}", cid, e, summarize(&m)))?;
+                        let ids = crate::wire::row_idents(&r);
+                        let qa = crate::sql::directive(&ta.sql).get("q").cloned().unwrap_or_default();
+                        let qb = crate::sql::directive(&tb.sql).get("q").cloned().unwrap_or_default();
+                        let ok = crate::wire::first_error(&r).is_none() && ids.len() == 2 && ids[0].2 == qa && ids[1].2 == qb;
+                        recs.push(ExecRec { op: "bind_a_execute_bind_b_execute_in_one_batch".into(), client: cid.clone(), portal: pa, expect_sql: ta.sql.clone(), expect_types: ta.types.clone(), name: na.clone(), reply: summarize(&r), ok });
+                        recs.push(ExecRec { op: "bind_a_execute_bind_b_execute_in_one_batch".into(), client: cid.clone(), portal: pb, expect_sql: tb.sql.clone(), expect_types: tb.types.clone(), name: nb.clone(), reply: summarize(&r), ok });
                     }
                     9 if rng.chance(1, 2) && (cache_size > 1 || dedicated) => {
                         // Parse(a) Parse(b) Bind(a) Execute Sync: with a tiny cache registering b evicts a
@@ -318,7 +344,9 @@ fn scenario(seed: u64, rep: &Report, dedicated: bool) -> Result<(), String> {
             Ev::MockErr { b, code, msg, .. } => {
                 // errors the client saw are judged (and attributed to an operation) by the reply check
                 let seen_by_client = recs.iter().any(|r| r.reply.contains(msg.as_str()));
-                if (code == "42P05" || code == "26000") && msg.contains("PGCAT_") && !seen_by_client {
+                // (dedicated cache-size-1 scenarios judge client replies only: the server-side
+                // errors there are the known findings' own mechanism)
+                if (code == "42P05" || code == "26000") && msg.contains("PGCAT_") && !seen_by_client && !dedicated {
                     rep.violation(
                         &format!("C08|server_error_for_pooler_generated_name|sqlstate={}|cache_size_class={}", code, if cache == 1 { "1" } else if cache < 8 { "small" } else { "large" }),
                         &format!("{} raised {} {} ({})", labels[*b], code, msg, cfgname),
@@ -333,11 +361,13 @@ fn scenario(seed: u64, rep: &Report, dedicated: bool) -> Result<(), String> {
         rep.count("executes_checked", 1);
         rep.distinct_str(&format!("{}|{}|{}", r.expect_sql, cache, pool_size));
         match ran.get(&r.portal) {
+            _ if dedicated => {}
             None => {
                 rep.violation("C08|execute_never_reached_server", &format!("{}: Bind/Execute of {} (portal {}) never reached a server; client saw {} ({})", r.client, r.name, r.portal, r.reply, cfgname), json!({"seed": seed}));
             }
             Some((sql, types)) => {
-                if *sql != r.expect_sql || types.as_ref() != Some(&r.expect_types) {
+                // (an Execute that was answered with an error is judged by the reply check below)
+                if r.ok && (*sql != r.expect_sql || types.as_ref() != Some(&r.expect_types)) {
                     rep.violation(
                         &format!("C08|executed_other_statement_than_client_prepared|same_text={}", *sql == r.expect_sql),
                         &format!(
@@ -357,7 +387,17 @@ fn scenario(seed: u64, rep: &Report, dedicated: bool) -> Result<(), String> {
         }
         if !r.ok {
             rep.violation(
-                &format!("C08|execute_reply_wrong|op={}|cache_size_class={}|error={}", r.op, if cache == 1 { "1" } else if cache < 8 { "small" } else { "large" }, r.reply.split('[').nth(1).and_then(|x| x.split(' ').next()).unwrap_or("none")),
+                &{
+                    let code = r.reply.split('[').nth(1).and_then(|x| x.split(' ').next()).unwrap_or("none").to_string();
+                    let multi = r.op.ends_with("_in_one_batch");
+                    if cache == 1 && multi {
+                        // a one-entry cache cannot hold the statements of one batch: the failure shows
+                        // as 42P05, 26000 or the pooler's own "does not exist", depending on timing
+                        format!("C08|execute_reply_wrong|op={}|cache_size_class=1|error=any", r.op)
+                    } else {
+                        format!("C08|execute_reply_wrong|op={}|cache_size_class={}|error={}", r.op, if cache == 1 { "1" } else if cache < 8 { "small" } else { "large" }, code)
+                    }
+                },
                 &format!("{}: Execute of {} (prepared as `{}`) was answered {} ({})", r.client, r.name, r.expect_sql, r.reply, cfgname),
                 json!({"seed": seed, "cfg": cfgname, "log_tail": cell.pg().log_tail(8)}),
             );
